@@ -1387,9 +1387,11 @@ class Interp:
         if isinstance(obj, (str, SStr, list, dict, set, frozenset, tuple, SSet)):
             return BuiltinMethod(obj, attr)
         if isinstance(obj, Opaque):
-            if attr in obj.attrs:
-                return obj.attrs[attr]
-            return OpaqueMethod(obj, attr)
+            if attr not in obj.attrs:
+                child = Opaque(f'{obj.tag}.{attr}')
+                child.member_of = (obj, attr)       # calling it is a method call on obj
+                obj.attrs[attr] = child
+            return obj.attrs[attr]
         if isinstance(obj, ExtName):
             if attr.isupper():
                 return ('extconst', f'{obj.qual}.{attr}')
@@ -1609,6 +1611,8 @@ class Interp:
         from .seq import SSeq
         if len(node.generators) == 1:
             it0 = self.ev(node.generators[0].iter, cenv)
+            if isinstance(it0, XList) and not it0.items and it0.base is not None:
+                it0 = it0.base          # a symbolic list without appended items is its base sequence
             if isinstance(it0, SSeq) or (isinstance(it0, SStr) and not it0.is_concrete()):
                 return ('special', it0, cenv)
         rec(0, True)
@@ -1786,13 +1790,14 @@ class Interp:
             short = f.qual.rsplit('.', 1)[-1]
             self.events.append(('ext', f.qual, tuple(args), dict(kwargs)))
             return Opaque(short, args)
-        if isinstance(f, OpaqueMethod):
+        if isinstance(f, Opaque):
+            owner, name = getattr(f, 'member_of', (f, '__call__'))
             if self.registry is not None:
-                ci = self.registry.for_call(f'{f.obj.tag}.{f.name}')
+                ci = self.registry.for_call(f'{owner.tag}.{name}')
                 if ci is not None:
-                    return self.registry.apply_external(self, ci, args, dict(kwargs, self=f.obj))
-            self.events.append((f.obj.tag, f.name, tuple(args), dict(kwargs)))
-            return Opaque(f'{f.obj.tag}.{f.name}()', (f.obj,))
+                    return self.registry.apply_external(self, ci, args, dict(kwargs, self=owner))
+            self.events.append((owner.tag, name, tuple(args), dict(kwargs)))
+            return Opaque(f'{owner.tag}.{name}()', (owner,))
         raise Unsupported(f'call of {type(f).__name__} {f!r}')
 
     def instantiate(self, cls: ClassInfo, args, kwargs):
